@@ -149,6 +149,13 @@ fn subset_alphabet(n: &Node, cfg: &AlphaCfg, limit: usize) -> Vec<(String, Trans
             }
         }
     }
+    // the MEL change output (index 1) of a stake transaction, spent in the same block
+    for (l, a) in v.iter() {
+        if a.kind == TxKind::Stake && a.outputs.len() >= 2 && a.outputs[1].denom == Denom::Mel {
+            let b = tx_t(TxKind::Normal, vec![a.output_coinid(1)], vec![out_t(a.outputs[1].value.0, Denom::Mel)], 0, vec![0xc8]);
+            chains.push((format!("spend-change-of({})", l), b));
+        }
+    }
     // put the chains right after their bases so that small subsets contain them
     let mut out = vec![];
     for (i, x) in v.into_iter().enumerate() {
@@ -159,6 +166,15 @@ fn subset_alphabet(n: &Node, cfg: &AlphaCfg, limit: usize) -> Vec<(String, Trans
         if i == 1 {
             out.extend(chains.iter().skip(2).take(2).cloned());
         }
+    }
+    // the stake and the spend of its change output always belong to the alphabet, right after the first transfer
+    if let Some((sl, st)) = alpha.iter().find(|x| x.1.kind == TxKind::Stake).map(|x| (x.0.clone(), x.1.clone())) {
+        out.retain(|x| x.1.kind != TxKind::Stake && !x.0.starts_with("spend-change-of"));
+        if st.outputs.len() >= 2 {
+            let b = tx_t(TxKind::Normal, vec![st.output_coinid(1)], vec![out_t(st.outputs[1].value.0, Denom::Mel)], 0, vec![0xc8]);
+            out.insert(1.min(out.len()), (format!("spend-change-of({})", sl), b));
+        }
+        out.insert(1.min(out.len()), (sl, st));
     }
     out.truncate(limit);
     out
@@ -192,6 +208,24 @@ fn check_set(run: &Run, base: &Node, u: &St, parent: &Sealed, names: &[String], 
         Outcome::Accepted { .. } => run.outcome(&format!("set{}:accepted", s.len())),
         Outcome::Rejected => run.outcome(&format!("set{}:rejected", s.len())),
         Outcome::Panicked(_) => run.outcome(&format!("set{}:panicked(reported under C09)", s.len())),
+    }
+    if matches!(first, Outcome::Rejected) && s.len() >= 2 {
+        // the other direction: a set that every batch order rejects must not be acceptable one transaction at a time either
+        for p in perms.iter().filter(|p| topological(s, p)) {
+            let txs: Vec<Transaction> = p.iter().map(|i| s[*i].clone()).collect();
+            run.transition();
+            let o = apply_one_by_one(u, &txs);
+            run.validated();
+            if matches!(o, Outcome::Accepted { .. }) {
+                run.violation(
+                    "C03",
+                    format!("batch-rejects-what-one-at-a-time-accepts/{}/height0={}", kinds_of(s), base.model.height == 0),
+                    format!("set {{{}}} after [{}]: rejected as a batch in every order, but accepted one at a time in topological order {:?}", names.join(", "), base.path_str(), p),
+                    replay.clone(),
+                );
+                break;
+            }
+        }
     }
     if let Outcome::Accepted { none, .. } = first {
         // one transaction at a time, in every topological order
@@ -500,6 +534,7 @@ pub fn run(run: &Run) {
     let mut cfg = AlphaCfg::base();
     cfg.swaps = true;
     cfg.deposits = true;
+    cfg.stakes = true;
     cfg.per_denom = 3;
     let limit = if thorough { 16 } else { 14 };
     let mut total_sets = 0u64;
